@@ -81,7 +81,11 @@ class PathInfo:
         self._walk(body, (), (), (), ())
 
     def _walk(self, stmts, conds, trys, loops, withs):
+        """Annotate ``stmts``; return the atoms (beyond ``conds``) known to
+        hold when control falls off the end of the block, or None when the
+        block never falls through."""
         extra = ()
+        dead = False
         for i, s in enumerate(stmts):
             cur = conds + extra
             self.conds[id(s)] = cur
@@ -93,14 +97,14 @@ class PathInfo:
             if isinstance(s, ast.If):
                 t = tuple(decompose(s.test, True))
                 f = tuple(decompose(s.test, False))
-                self._walk(s.body, cur + t, trys, loops, withs)
-                self._walk(s.orelse, cur + f, trys, loops, withs)
-                bt = terminates(s.body, self.local_raisers)
-                ot = bool(s.orelse) and terminates(s.orelse, self.local_raisers)
-                if bt and not ot:
-                    extra = extra + f
-                elif ot and not bt:
-                    extra = extra + t
+                b_end = self._walk(s.body, cur + t, trys, loops, withs)
+                o_end = self._walk(s.orelse, cur + f, trys, loops, withs)
+                if b_end is None and o_end is None:
+                    dead = True
+                elif b_end is None:
+                    extra = extra + f + o_end
+                elif o_end is None:
+                    extra = extra + t + b_end
             elif isinstance(s, (ast.For, ast.AsyncFor)):
                 self._walk(s.body, cur, trys, loops + (s,), withs)
                 self._walk(s.orelse, cur, trys, loops, withs)
@@ -109,18 +113,36 @@ class PathInfo:
                 self._walk(s.body, cur + t, trys, loops + (s,), withs)
                 self._walk(s.orelse, cur, trys, loops, withs)
             elif isinstance(s, (ast.With, ast.AsyncWith)):
-                self._walk(s.body, cur, trys, loops, withs + (s,))
+                w_end = self._walk(s.body, cur, trys, loops, withs + (s,))
+                if w_end is None:
+                    dead = True
+                else:
+                    extra = extra + w_end
             elif isinstance(s, ast.Try):
-                self._walk(s.body, cur, trys + ((s, 'body', 0),), loops, withs)
+                b_end = self._walk(s.body, cur, trys + ((s, 'body', 0),), loops, withs)
+                h_ends = []
                 for k, h in enumerate(s.handlers):
-                    self._walk(h.body, cur, trys + ((s, 'handler', k),), loops, withs)
-                self._walk(s.orelse, cur, trys + ((s, 'else', 0),), loops, withs)
-                self._walk(s.finalbody, cur, trys + ((s, 'finally', 0),), loops, withs)
+                    h_ends.append(self._walk(h.body, cur, trys + ((s, 'handler', k),),
+                                             loops, withs))
+                e_end = self._walk(s.orelse, cur, trys + ((s, 'else', 0),), loops, withs)
+                f_end = self._walk(s.finalbody, cur, trys + ((s, 'finally', 0),), loops, withs)
+                if f_end is None:
+                    dead = True
+                elif all(h is None for h in h_ends):
+                    if b_end is None or e_end is None:
+                        dead = True
+                    else:
+                        extra = extra + b_end + e_end
             elif isinstance(s, ast.Assert):
                 # after ``assert c`` the rest of the block runs under c
-                if not (isinstance(s.test, ast.Constant) and not s.test.value):
+                if isinstance(s.test, ast.Constant) and not s.test.value:
+                    dead = True
+                else:
                     extra = extra + tuple(decompose(s.test, True))
+            elif _stmt_terminates(s, self.local_raisers):
+                dead = True
             # nested defs/classes: not entered (separate functions)
+        return None if dead else extra
 
     # ------------------------------------------------------------------
     def stmt_containing(self, node):
